@@ -196,13 +196,19 @@ def part_a(h):
         (jt.ClosedUnitInterval, float, ((">=", 0), ("<=", 1)), "and"), (jt.OpenUnitInterval, float, ((">", 0), ("<", 1)), "and"),
     ]
     extra = []
+
+    def add_extra(base, restr, join):
+        res = outcome(make_number_type, base, restr, join)
+        if h.check(res[0] == "ok", f"c20:restricted:{restr_name(base, join, restr)}:create", f"type creation failed: {res}", {"restrictions": restr}):
+            extra.append((res[1], base, restr, join))
+
     for base in (int, float):
         for op in OPS:
             for ref in REFS[base][1:] if not h.thorough else REFS[base]:
-                extra.append((make_number_type(base, ((op, ref),), "and"), base, ((op, ref),), "and"))
-        extra.append((make_number_type(base, (("<", 0), (">", 1)), "or"), base, (("<", 0), (">", 1)), "or"))
-        extra.append((make_number_type(base, ((">=", -1), ("!=", 0), ("<=", 1)), "and"), base, ((">=", -1), ("!=", 0), ("<=", 1)), "and"))
-        extra.append((make_number_type(base, (("==", -1), ("==", 1), (">", 1)), "or"), base, (("==", -1), ("==", 1), (">", 1)), "or"))
+                add_extra(base, ((op, ref),), "and")
+        add_extra(base, (("<", 0), (">", 1)), "or")
+        add_extra(base, ((">=", -1), ("!=", 0), ("<=", 1)), "and")
+        add_extra(base, (("==", -1), ("==", 1), (">", 1)), "or")
     pacc = prej = 0
     for T, base, restr, join in shipped + extra:
         tname = ("shipped:" + T.__name__) if (T, base, restr, join) in shipped else restr_name(base, join, restr)
@@ -274,7 +280,10 @@ def part_b(h):
         if name in ("NotEmptyStr", "Email"):
             T = getattr(jt, name)
         else:
-            T = restricted_string_type(name, re.compile(pat, flags) if flags else pat)
+            res = outcome(restricted_string_type, name, re.compile(pat, flags) if flags else pat)
+            if not h.check(res[0] == "ok", f"c20:restricted-str:{name}:create", f"type creation failed: {res}", {"pattern": pat}):
+                continue
+            T = res[1]
         rx = re.compile(pat, flags)
         p = parser_for(T)
         for s in cands:
